@@ -76,8 +76,14 @@ structure World where
   rs      : RS := { batchSize := batchSizeC }
   /-- LoadRegionsOnce has succeeded on this Storage object (region backend) -/
   onceLoaded : Bool := false
+  /-- the region storage is selected (`SwitchToRegionStorage`); the pending batch belongs to it either way -/
+  sel : Bool := true
 
-def isRS (w : World) : Bool := w.backend == "rs" || w.backend == "rsg"
+/-- the Storage has a region storage -/
+def hasRS (w : World) : Bool := w.backend == "rs" || w.backend == "rsg"
+
+/-- region saves / deletes / loads go to the region storage -/
+def isRS (w : World) : Bool := hasRS w && w.sel
 
 /-- how an unreadable record under the region key of `id` is written down (the harness refuses to save a
     genuine region with these values) -/
@@ -135,7 +141,10 @@ def modelStep (w : World) (ws : List String) : World × String :=
         let r := w.rs.saveFailed m
         ({ w with rs := r.1 }, errWord r.2)
       | none => bad
-    | ["failflush"] => if isRS w then ({ w with rs := w.rs.flushFailed }, "err") else bad
+    | ["failflush"] => if hasRS w then ({ w with rs := w.rs.flushFailed }, "err") else bad
+    | ["pad", n] => if natArg n > 65536 then bad else (w, "ok")
+    | ["switch", b] =>
+      if !hasRS w || !(b == "default" || b == "region") then bad else ({ w with sel := b == "region" }, "ok")
     | ["corrupt", i] =>
       let m := corruptMeta (natArg i)
       if isRS w then ({ w with rs := { w.rs with ldb := kvSave w.rs.ldb m.id m } }, "ok")
@@ -145,7 +154,7 @@ def modelStep (w : World) (ws : List String) : World × String :=
         (fun wt k => weightsSave wt (natArg st + k * natArg step) (bits15 + k) (bits20 + k)) w.weights
       ({ w with weights := ws' }, "ok")
     | ["race", i] =>
-      if w.backend != "rsg" then bad else ({ w with rs := (w.rs.delete (natArg i)).flush }, "ok")
+      if w.backend != "rsg" || !w.sel then bad else ({ w with rs := (w.rs.delete (natArg i)).flush }, "ok")
     | ["regions", n, st, step, width] =>
       let w' := (List.range (natArg n)).foldl (fun w k =>
         saveRegion w (bulkMeta (natArg st) (natArg step) (natArg width) k)) w
@@ -158,7 +167,7 @@ def modelStep (w : World) (ws : List String) : World × String :=
       | some m => (w, s!"ok {fmtMeta m}")
       | none => (w, "ok none")
     | "loadregions" :: mode :: rest =>
-      if rest.length > 1 || (rest.length == 1 && isRS w) then bad else
+      if rest.length > 1 || (rest.length == 1 && hasRS w) then bad else
       let errs := parsePattern (rest.headD "")
       let kv := regionKV w
       let setKV (w : World) (kv' : KV Meta) : World :=
@@ -179,7 +188,7 @@ def modelStep (w : World) (ws : List String) : World × String :=
           (w', s!"{errWord e} {fmtRegions "" (s.loaded.map (·.2))} {fmtRegions "c" cache} {fmtRegions "k" ((regionKV w').map (·.2))}")
       else bad
     | "loadonce" :: rest =>
-      if rest.length > 1 || (rest.length == 1 && isRS w) then bad else
+      if rest.length > 1 || (rest.length == 1 && hasRS w) then bad else
       let errs := parsePattern (rest.headD "")
       let kv := regionKV w
       let r := loadRegionsOnce pruneCb badRecord maxLimitC minLimitC (isRS w && w.onceLoaded) kv ([] : Cache) errs
@@ -197,16 +206,18 @@ def modelStep (w : World) (ws : List String) : World × String :=
           else { w with regions := s.kv }
         let cache := (s.cb.map (·.md)).mergeSort (fun a b => a.id ≤ b.id)
         (w1, s!"{errWord e} {fmtRegions "" (s.loaded.map (·.2))} {fmtRegions "c" cache} {fmtRegions "k" ((regionKV w1).map (·.2))}")
-    | ["flush"] => (if isRS w then { w with rs := w.rs.flush } else w, "ok")
-    | ["close"] => (if isRS w then { w with rs := w.rs.flush, onceLoaded := false } else w, "ok")
-    | ["crash"] => if isRS w then ({ w with rs := w.rs.crash, onceLoaded := false }, "ok") else bad
-    | ["bgflush"] => if isRS w then ({ w with rs := w.rs.flush }, "ok") else bad
+    | ["flush"] => (if hasRS w then { w with rs := w.rs.flush } else w, "ok")
+    | ["close"] => (if hasRS w then { w with rs := w.rs.flush, onceLoaded := false } else w, "ok")
+    | ["crash"] => if hasRS w then ({ w with rs := w.rs.crash, onceLoaded := false }, "ok") else bad
+    | ["bgflush"] => if hasRS w then ({ w with rs := w.rs.flush }, "ok") else bad
     | _ => bad
 
 /-! ### monitor -/
 
 structure Mon where
-  rsBackend : Bool := false
+  rsBackend : Bool := false                           -- region ops go to the region storage now
+  hasRS     : Bool := false                           -- the Storage has a region storage
+  other     : C17.Track Meta := {}                    -- what the backend that is not selected holds
   stores    : List (Nat × Nat) := []                 -- id ↦ ver, saved and not deleted
   weights   : List (Nat × (Nat × Nat)) := []
   regions   : C17.Track Meta := {}
@@ -274,6 +285,10 @@ def expectedStores (m : Mon) : List (Nat × SItem) :=
 def clearBulk (unsure : List Nat) (n st step : Nat) : List Nat :=
   unsure.filter (fun i => !((List.range n).any (fun k => st + k * step == i)))
 
+/-- flush / close / stop act on the region storage whichever backend is selected -/
+def onRS (m : Mon) (f : C17.Track Meta → C17.Track Meta) : Mon :=
+  if m.rsBackend || !m.hasRS then { m with regions := f m.regions } else { m with other := f m.other }
+
 def trackBulk (t : C17.Track Meta) (n st step width : Nat) : C17.Track Meta :=
   (List.range n).foldl (fun t k => t.save (bulkMeta st step width k).id (bulkMeta st step width k)) t
 
@@ -281,7 +296,14 @@ def monitor (m : Mon) (ws : List String) (impl : String) : Mon × List String :=
   let okObs := impl == "ok" || impl.startsWith "ok "
   match ws with
   | ["reset"] => ({}, [])
-  | ["open", b] => ({ m with rsBackend := b == "rs" || b == "rsg" }, [])
+  | ["open", b] => ({ m with rsBackend := b == "rs" || b == "rsg", hasRS := b == "rs" || b == "rsg" }, [])
+  | ["switch", b] =>
+    if impl != "ok" || m.lost then (m, []) else
+    let toRS := b == "region"
+    if toRS == m.rsBackend then (m, []) else
+    -- a stop whose outcome has not been observed, or saves with unknown outcome: give up on this sequence
+    if m.regions.crashed || !m.unsure.isEmpty then ({ m with lost := true }, []) else
+    ({ m with rsBackend := toRS, regions := m.other, other := m.regions }, [])
   | _ =>
     if m.lost then (m, []) else
     -- an op other than a full load on a stopped process: give up tracking this sequence
@@ -322,10 +344,10 @@ def monitor (m : Mon) (ws : List String) (impl : String) : Mon × List String :=
       (if okObs then { m with regions := trackBulk m.regions (natArg n) (natArg st) (natArg step) (natArg width), unsure := clearBulk m.unsure (natArg n) (natArg st) (natArg step) } else m, [])
     | ["delregion", i] =>
       (if okObs then { m with regions := m.regions.delete (natArg i), unsure := m.unsure.filter (· != natArg i) } else m, [])
-    | ["flush"] | ["bgflush"] => (if okObs then { m with regions := m.regions.flush } else m, [])
-    | ["close"] => (if okObs then { m with regions := m.regions.flush, onceDone := false } else m, [])
+    | ["flush"] | ["bgflush"] => (if okObs then onRS m (·.flush) else m, [])
+    | ["close"] => (if okObs then { onRS m (·.flush) with onceDone := false } else m, [])
     | ["crash"] =>
-      (if okObs then { m with regions := m.regions.crash, onceDone := false, lost := m.lost || !m.unsure.isEmpty } else m, [])
+      (if okObs then { onRS m (·.crash) with onceDone := false, lost := m.lost || !m.unsure.isEmpty || !m.rsBackend } else m, [])
     | ["loadregion", i] =>
       if !okObs || (m.rsBackend && m.regions.dirty) || m.unsure.contains (natArg i) then (m, []) else
       let exp := match C17.mget m.regions.cur (natArg i) with | some r => s!"ok {fmtMeta r}" | none => "ok none"
